@@ -1,6 +1,7 @@
 package main
 
 import (
+	"math/big"
 	"bytes"
 	"fmt"
 	"strings"
@@ -175,6 +176,31 @@ func runC27(r *Run) {
 				cdoc := []byte(fmt.Sprintf("c%d 1", v))
 				_, e2, _ := decodeVia("cte", cdoc, func(d []byte, rc events.DataEventReceiver) error { return cte.NewDecoder(cfg).DecodeDocument(d, rc) }, cfg)
 				r.out.Line("prop", fmt.Sprintf("vt%d", v), "API.VERSION", []string{"cte", fmt.Sprintf("%d", v)}, map[string]string{"OK": "1", "ERR": "0"}[e2])
+			}
+		}
+		// versions that do not fit 64 bits (10 and more ULEB128 bytes), CBE and CTE
+		for _, k := range []uint{62, 63, 64, 65, 70, 77, 126, 127, 128, 140} {
+			for d := int64(-1); d <= 1; d++ {
+				v := new(big.Int).Lsh(big.NewInt(1), k)
+				v.Add(v, big.NewInt(d))
+				var ub []byte
+				for t := new(big.Int).Set(v); ; {
+					b := byte(new(big.Int).And(t, big.NewInt(0x7f)).Uint64())
+					t.Rsh(t, 7)
+					if t.Sign() != 0 {
+						ub = append(ub, b|0x80)
+					} else {
+						ub = append(ub, b)
+						break
+					}
+				}
+				doc := append(append([]byte{0x81}, ub...), 0x01)
+				_, e, _ := decodeVia("cbe", doc, func(d []byte, rc events.DataEventReceiver) error { return cbe.NewDecoder(cfg).DecodeDocument(d, rc) }, cfg)
+				r.out.Line("prop", "vbig"+v.String(), "API.VERSION", []string{"cbe", v.String()}, map[string]string{"OK": "1", "ERR": "0"}[e])
+				emit(doc, "cbe-version-big")
+				cdoc := []byte("c" + v.String() + " 1")
+				_, e2, _ := decodeVia("cte", cdoc, func(d []byte, rc events.DataEventReceiver) error { return cte.NewDecoder(cfg).DecodeDocument(d, rc) }, cfg)
+				r.out.Line("prop", "vtbig"+v.String(), "API.VERSION", []string{"cte", v.String()}, map[string]string{"OK": "1", "ERR": "0"}[e2])
 			}
 		}
 		// encoders / marshalers write version 0
